@@ -15,6 +15,7 @@ import MTVerif.Model.Contain
 import MTVerif.Model.Anno
 import MTVerif.Model.Sig
 import MTVerif.Model.Render
+import MTVerif.Model.ModuleRender
 import MTVerif.Model.Imports
 import MTVerif.Model.EvalAnno
 namespace MT
@@ -22,6 +23,7 @@ open Sexp
 
 structure DState where
   hier : List (ClassId × List ClassId × List ClassId) := []   -- class, direct bases, mro
+  ranks : List (ClassId × Nat) := []                          -- class, position by (module, qualname)
   clsNames : List (ClassId × String × String) := []
   funcNames : List (FuncId × String × String) := []
   envTab : List ((String × String) × Obj) := []
@@ -67,13 +69,20 @@ def sexpOfTrace (t : Trace) : Sexp :=
 def DState.H (st : DState) : Hier where
   mro c := match st.hier.lookup c with | some (_, m) => m | none => [c, objectC]
   bases c := match st.hier.lookup c with | some (b, _) => b | none => [objectC]
+  rank c := match st.ranks.lookup c with | some r => r | none => c
 
 def DState.sub (st : DState) (c d : ClassId) : Bool := st.H.sub c d
 
 def hierOf (xs : List Sexp) : Except String (List (ClassId × List ClassId × List ClassId)) :=
   xs.mapM (fun x => match x with
     | .list [c, .list bs, .list ms] => do .ok (← natOf c, ← bs.mapM natOf, ← ms.mapM natOf)
+    | .list [c, .list bs, .list ms, _] => do .ok (← natOf c, ← bs.mapM natOf, ← ms.mapM natOf)
     | _ => .error "bad hier entry")
+
+def ranksOf (xs : List Sexp) : Except String (List (ClassId × Nat)) :=
+  xs.filterMapM (fun x => match x with
+    | .list [c, _, _, r] => do .ok (some (← natOf c, ← natOf r))
+    | _ => .ok none)
 
 def rwOf : Sexp → Except String RW
   | .atom "removeEmpty" => .ok .removeEmpty
@@ -123,7 +132,7 @@ def handle (st : DState) (req : Sexp) : Except String (DState × Sexp) :=
   match req with
   | .list (.atom "hier" :: xs) => do
       let h ← hierOf xs
-      .ok ({ st with hier := h }, .atom "ok")
+      .ok ({ st with hier := h, ranks := ← ranksOf xs }, .atom "ok")
   | .list [.atom "getType", k, v] => do
       .ok (st, sexpOfTy (getType (← natOf k) (← valOf v)))
   | .list (.atom "shrink" :: k :: ts) => do
@@ -262,6 +271,12 @@ def handle (st : DState) (req : Sexp) : Except String (DState × Sexp) :=
       let ownM ← strOf own
       let imps := ((← ts.mapM tyOf).flatMap (Render.importsOf st.names)).filter (fun mq => mq.1 != ownM)
       .ok (st, sexpOfBool (Render.rootClash imps))
+  | .list [.atom "renderModule", imp, .list tds, .list funcs, .list classes] => do
+      let pairOf (x : Sexp) : Except String (String × String) := match x with
+        | .list [n, t] => do .ok (← strOf n, ← strOf t)
+        | _ => .error "bad (name text) pair"
+      let i ← (match imp with | .atom "none" => .ok none | y => (strOf y).map some : Except String (Option String))
+      .ok (st, .str (renderModule i (← tds.mapM pairOf) (← funcs.mapM pairOf) (← classes.mapM pairOf)))
   | .list [.atom "tdNames", hint, t] => do
       let ns := Render.tdNames (← strOf hint) (← tyOf t)
       .ok (st, .list [.list (ns.map (fun n => .str n)), sexpOfBool (Render.hasNameCollision ns)])
